@@ -125,6 +125,9 @@ func (e *Enc) call(site ssa.Instruction, cc *ssa.CallCommon, rt types.Type) Valu
 				btypes = append(btypes, a.Type())
 			}
 			e.atCallAsserts(site, "builtin:"+b.Name(), bargs, btypes)
+			r := e.builtin(site, b, cc, rt)
+			e.atCallAssertsPhase(site, "builtin:"+b.Name(), bargs, btypes, true, r, rt)
+			return r
 		}
 		return e.builtin(site, b, cc, rt)
 	}
@@ -756,6 +759,10 @@ func (e *Enc) allofFams(ctx *SpecCtx, x *ECall) []string {
 
 // atCallAsserts discharges the `at call` assertions attached to this call site.
 func (e *Enc) atCallAsserts(site ssa.Instruction, key string, args []Value, argTypes []types.Type) {
+	e.atCallAssertsPhase(site, key, args, argTypes, false, nil, nil)
+}
+
+func (e *Enc) atCallAssertsPhase(site ssa.Instruction, key string, args []Value, argTypes []types.Type, after bool, res Value, rt types.Type) {
 	if e.fc == nil || len(e.fc.AtCalls) == 0 {
 		return
 	}
@@ -771,7 +778,7 @@ func (e *Enc) atCallAsserts(site ssa.Instruction, key string, args []Value, argT
 	e.atOrd[key]++
 	for i := range e.fc.AtCalls {
 		ac := &e.fc.AtCalls[i]
-		if !strings.HasSuffix(key, ac.Callee) {
+		if !strings.HasSuffix(key, ac.Callee) || ac.After != after {
 			continue
 		}
 		// the ordinal counts the call sites matching this clause's callee pattern in source order
@@ -784,6 +791,9 @@ func (e *Enc) atCallAsserts(site ssa.Instruction, key string, args []Value, argT
 		ctx.at = site.Block()
 		for k := range args {
 			ctx.vars[fmt.Sprintf("a%d", k)] = TV{args[k], argTypes[k]}
+		}
+		if after && res != nil {
+			ctx.vars["result"] = TV{res, rt}
 		}
 		for idx, in := range site.Block().Instrs {
 			if in == site {
